@@ -40,6 +40,12 @@ CONFIGS = {
     "MD046": [("default", [], {"style": "consistent"}), ("fenced", ["plugins.md046.style=fenced"], {"style": "fenced"}), ("indented", ["plugins.md046.style=indented"], {"style": "indented"})],
     "MD035": [("default", [], {"style": "consistent"}), ("***", ["plugins.md035.style=***"], {"style": "***"})],
     "MD019": [("default", [], {})],
+    "MD003": [("default", [], {"style": "consistent"}), ("atx", ["plugins.md003.style=atx"], {"style": "atx"}),
+              ("atx_closed", ["plugins.md003.style=atx_closed"], {"style": "atx_closed"}), ("setext", ["plugins.md003.style=setext"], {"style": "setext"})],
+    "MD024": [("default", [], {})],
+    "MD026": [("default", [], {"punctuation": list(".,;:!。，；：！")}), ("qmark", ["plugins.md026.punctuation=?!"], {"punctuation": list("?!")})],
+    "MD041": [("default", [], {"level": 1}), ("level=2", ["plugins.md041.level=$#2"], {"level": 2})],
+    "MD022": [("default", [], {})],
     "MD023": [("default", [], {})],
 }
 FAMILIES = {
@@ -90,7 +96,7 @@ def _doc(job):
                     if l2 != lines:
                         lines = l2          # judged against the same model verdict: a difference shows up as missed / spurious
                         break
-        if rule in ("MD001", "MD025", "MD019", "MD023"):
+        if rule in ("MD001", "MD025", "MD019", "MD023", "MD003", "MD024", "MD026", "MD022", "MD041"):
             # a rule may name any line of a (setext) heading: compare by the heading's first line
             lines = {next((b["ln"] for b in B if b["k"] == "h" and b["ln"] <= x <= b["endln"]), x) for x in lines}
         out.append((rule, cname, sorted(lines)))
